@@ -363,6 +363,79 @@ func c17(r *core.Report) {
 		}
 	}
 
+	// ---- C17-OPTIONS-FIRST: "every layer computes the peer id from the key the same way" inside one
+	// swarm too: a constructor that applies functional options to a config must not read the configured
+	// fingerprinter (or key registry) before the options have been applied, or the swarm's own id is
+	// computed with the default while every other site uses the configured function
+	r.Rule("C17-OPTIONS-FIRST", "constructors read the configured fingerprinter/registry only after the options loop", 1)
+	nOpt := 0
+	for _, fn := range p.ModFuncs {
+		if strings.Contains(fn.String(), "_test") {
+			continue
+		}
+		// the options loop: opt(&config) with opt an element of a slice-of-func parameter
+		var header *ssa.BasicBlock
+		var cell *ssa.Alloc
+		for _, in := range core.AllInstrs(fn) {
+			c, ok := in.(*ssa.Call)
+			if !ok || c.Call.IsInvoke() || len(c.Call.Args) != 1 {
+				continue
+			}
+			ld, ok := core.Through(c.Call.Value).(*ssa.UnOp)
+			if !ok {
+				continue
+			}
+			ia, ok := ld.X.(*ssa.IndexAddr)
+			if !ok {
+				continue
+			}
+			if prm, isP := core.Through(ia.X).(*ssa.Parameter); !isP || !prm.Parent().Signature.Variadic() {
+				continue
+			}
+			a, ok := c.Call.Args[0].(*ssa.Alloc)
+			if !ok {
+				continue
+			}
+			if ph, isPhi := core.Through(ia.Index).(*ssa.BinOp); isPhi {
+				if pp, ok2 := ph.X.(*ssa.Phi); ok2 {
+					header, cell = pp.Block(), a
+				}
+			}
+			if pp, ok2 := core.Through(ia.Index).(*ssa.Phi); ok2 {
+				header, cell = pp.Block(), a
+			}
+		}
+		if header == nil {
+			continue
+		}
+		early := core.Reach(fn, nil, nil, func(in ssa.Instruction) bool { return in.Block() == header })
+		for _, in := range core.AllInstrs(fn) {
+			fa, ok := in.(*ssa.FieldAddr)
+			if !ok || fa.X != ssa.Value(cell) {
+				continue
+			}
+			f, _ := core.FieldOfAddr(fa)
+			if f == nil || (f.Name() != "fingerprinter" && f.Name() != "registry") {
+				continue
+			}
+			// reads only (the defaults are stored before the loop)
+			isRead := false
+			for _, ref := range *fa.Referrers() {
+				if u, ok := ref.(*ssa.UnOp); ok && u.Op == token.MUL {
+					isRead = true
+				}
+			}
+			if !isRead {
+				continue
+			}
+			nOpt++
+			r.Check(!early[in] || in.Block() == header, "C17-OPTIONS-FIRST", core.FnName(fn)+" reads "+f.Name(), p.Pos(fa.Pos()), "the configured "+f.Name()+" is read after the options were applied", "the constructor reads config."+f.Name()+" before it has applied its options: the swarm's own peer id (or key) is derived with the default while AcceptKey, the dial-side check and Message.Src use the configured one, so the advertised id is not the fingerprint of the swarm's key and peers that dial it reject the handshake")
+		}
+	}
+	if nOpt == 0 {
+		r.Fail("C17-OPTIONS-FIRST: no constructor reading a configured fingerprinter/registry found (anchor stale)")
+	}
+
 	r.Rule("C17-ALPHABET", "peer-id alphabet strictly ascending, unpadded encoding, length checked before decoding", 3)
 	{
 		obj, _ := p.Object(core.ModPath, "Base64Alphabet").(*types.Const)
